@@ -35,6 +35,16 @@ func aliasPool() []func() Stmt {
 		func() Stmt { return Def("b", &Slice{X: I("d"), Lo: N("0"), Hi: N("2")}) },
 		func() Stmt { return Def("b", C(I("append"), I("d"), N("4"))) },
 		func() Stmt { return Def("b", B("+", I("d"), &Immutable{X: arr("4")})) },
+		// spread into a variadic parameter: the callee's rest array is a fresh array, never the caller's
+		func() Stmt {
+			return Def("e", &Call{F: &Paren{X: &FuncLit{Params: []string{"x", "rest"}, VarArgs: true,
+				Body: []Stmt{Set(idx("rest", "0"), N("99")), &Return{X: I("rest")}}}}, Args: []Expr{N("0"), I("a")}, Spread: true})
+		},
+		func() Stmt {
+			return Def("e", &Call{F: &Paren{X: &FuncLit{Params: []string{"rest"}, VarArgs: true,
+				Body: []Stmt{&Return{X: I("rest")}}}}, Args: []Expr{I("a")}, Spread: true})
+		},
+		func() Stmt { return Set(idx("e", "0"), N("5")) },
 	}
 }
 
